@@ -199,6 +199,16 @@ impl Server {
         Pending { req, ex, passed_on }
     }
 
+    /// The application renders ANOTHER reply for a request it has been handed before (a notification
+    /// for an observed resource, a separate response, the reply to a retransmission): a fresh
+    /// response object for the same request goes through intercept_response, no intercept_request.
+    pub fn rerender(&mut self, datagram: &[u8], ep: u32, app: &mut dyn FnMut(&CoapRequest<CEp>) -> AppReply) -> Exchange {
+        let packet = Packet::from_bytes(datagram).expect("harness generated an undecodable request");
+        let req = CoapRequest::from_packet(packet, CEp::new(ep));
+        let ex = Exchange { intercept_request: Step::Ok(false), app_called: false, app_saw_payload: None, intercept_response: None, error_applied: None, reply: None, reply_len: None, reply_encode_error: None };
+        self.answer(Pending { req, ex, passed_on: true }, app)
+    }
+
     /// Second half: the application answers a pending request and the reply goes through
     /// intercept_response; for a request the handler answered itself only the reply is rendered.
     pub fn answer(&mut self, pending: Pending, app: &mut dyn FnMut(&CoapRequest<CEp>) -> AppReply) -> Exchange {
